@@ -4,8 +4,8 @@ CONFIG = {
     'driver': 'Ser',
     'harness': {'name': 'ser', 'srcs': ['harness/h_ser.cc', 'harness/h_ser_le.cc', 'harness/h_ser_be.cc'],
                 'args': ['--prop', 'C15']},
-    'rule': 'cases = (type, value) pairs over 72 concrete C++ types (63 in the swap build, incl. the real '
-            'dmlc::data::RowBlockContainer<uint32_t,float>::Save/Load presented as the class of its nine members; depth <= 3: arithmetic 1/2/4/8 '
+    'rule': 'cases = (type, value) pairs over 73 concrete C++ types (64 in the swap build, incl. the real '
+            'dmlc::data::RowBlockContainer<uint32_t|uint64_t,float>::Save/Load presented as the class of its nine members; depth <= 3: arithmetic 1/2/4/8 '
             'bytes incl. float/double bit patterns, string, pair, vector/list/deque, set/multiset/unordered_set, '
             'map/multimap/unordered_map, classes with Save/Load, POD structs) x both byte-order builds, each with the '
             'ops enc (bytes vs reference layout), rt (round trip + consumption with a random tail), rtd x3 (the same read '
